@@ -19,6 +19,7 @@ EXPLANATION = (
     "timer request and end_bmca hands out lifecycle.pending_action. TMR-4: the multiport-disable age written back "
     "by step_announce_age is old age + step (otherwise a passive port never ages out)."
     ' TMR-8 (shared with C06 FM-8): the ageing step and the qualification-window interval arrive unchanged at the foreign master records, so a regularly announcing master can qualify.'
+    ' TMR-9 (= C06 FM-10): aged-out foreign master records are removed. TMR-8 also covers the source of the ageing step (exactly 2^log_bmca_interval seconds, fractional below one second).'
 )
 NOT_DECIDED = "liveness over time (bounded number of intervals), host timer behaviour, that requested durations are sensible"
 ASSUMPTIONS = ["Message::serialize into the 1024-byte packet buffer cannot fail for messages the library builds "
